@@ -301,6 +301,25 @@ def r3(F, R):
             for site, how, f in F.fn_refs("^" + re.escape(mk.name) + "$"):
                 if site.body is not mk and (mk, site.body) not in holders:
                     holders.append((mk, site.body))
+    # the expansion written as an explicit loop in a routine of its own (`for res in parsed { out.push(match res { Ok(f) => f.expand_examples().., .. }) }`):
+    # on the routine's table every `Ok(..)` pushed into the output derives from the result of expand_examples, and what it loops over was read from files
+    for mk, s_use in uses:
+        if mk.kind == "Closure" or any(h[0] is mk for h in holders):
+            continue
+        from . import deep as D
+        rows = D.Deep(F, mk, inline=False, max_paths=500).run()
+        oks = raw = 0
+        for p in rows:
+            for e in p.effects:
+                if e[0] == "call" and re.search(r"Vec::<.*>::push$", e[1]) and len(e[2]) == 2 and D.is_variant(e[2][1], "std::result::Result", "Ok"):
+                    if D.mentions(e[2][1], lambda x: x[0] == "call" and re.search(r"feature::Ext>?::expand_examples$|::expand_examples$", x[1])):
+                        oks += 1
+                    else:
+                        raw += 1
+        if any(reads_files(mk, t2) for _, t2 in mk.calls()) and (oks or raw):
+            n_ret += 1
+            if raw or not oks:
+                bad = "a feature read from files is put into the parser's output without having passed through expand_examples"
     for mk, fc in holders:
         emaps = [s2 for s2, t2 in fc.calls(lambda t2: callee_is(t2, r"Iterator::(map|flat_map|filter_map)$") and len(t2["args"]) > 1 and is_expander(fc, t2["args"][1], mk))]
         emaps += [s2 for s2, t2 in fc.calls(lambda t2: F.callee_body(t2, fc.crate) is mk)]     # explicit loop: `out.push(Self::expand(f))`
